@@ -55,3 +55,45 @@ macro_rules! exec_local_s {
     };
 }
 
+
+/// Glue for a single-location flow that contains simulated futures (`e4_flows::asyncf`): the tick is
+/// driven through the *async* `Dfir::run_tick` and polled to completion by a trivial executor (a
+/// suspended tick is re-polled immediately: the simulated futures wake themselves).
+#[macro_export]
+macro_rules! exec_local_async {
+    ($fname:ident, $m:ident, [$($in:ident : $inty:ty),*], [$($out:ident),*]) => {
+        pub fn $fname(plan: &$crate::io::Plan, _net: &mut dyn $crate::io::NetSched) -> $crate::io::Exec {
+            use $crate::io::{Feed, OutLog, Queue};
+            let tick = std::rc::Rc::new(std::cell::Cell::new(0usize));
+            e4_flows::asyncf::set_script(plan.pends.clone());
+            $( let $in = Queue::<$inty>::new(); )*
+            $( let $out = OutLog::new(&tick); )*
+            let (total, idle) = {
+                let mut outs = crate::genmods::$m::$m::EmbeddedOutputs {
+                    $( $out: |x| $out.push(x), )*
+                };
+                let mut flow = crate::genmods::$m::$m($( $in.stream(), )* &mut outs);
+                let feeds: Vec<&dyn Feed> = vec![$( &$in ),*];
+                let r = $crate::io::drive_local(plan, &feeds, &tick, &mut || {
+                    let mut fut = std::pin::pin!(flow.run_tick());
+                    let mut cx = std::task::Context::from_waker(std::task::Waker::noop());
+                    let mut polls = 0u32;
+                    loop {
+                        match std::future::Future::poll(fut.as_mut(), &mut cx) {
+                            std::task::Poll::Ready(r) => break r,
+                            std::task::Poll::Pending => {
+                                polls += 1;
+                                assert!(polls < 100_000, "harness: a tick did not complete after 100000 polls");
+                            }
+                        }
+                    }
+                });
+                drop(flow);
+                r
+            };
+            let mut ex = $crate::io::Exec::collect(total, idle, vec![$( $out.take() ),*]);
+            ex.suspensions = e4_flows::asyncf::suspensions();
+            ex
+        }
+    };
+}
